@@ -20,12 +20,20 @@ def build():
     opt_as_str = ("T-CLOSURE", r"(?P<m>\w+)\s*\.get_one::<String>\((?P<k>[^()]*)\)\s*\.map\(\|e\| e\.as_str\(\)\)",
                   lambda m: f"crate::shims::opt_as_str({m.group('m')}.get_one_string({m.group('k')}))", None)
     get_one = ("T-MAP", r"(?P<m>\w+)\s*\.get_one::<String>\((?P<k>[^()]*)\)(?!\s*\.map\(\|e\| e\.as_str)", lambda m: f"{m.group('m')}.get_one_string({m.group('k')})", None)
-    u.verify(M, "get_acme_value", "", props=["C16"], fns={"get_acme_value": FnSpec(ret="r", sig="""
+    u.ghost_call("read_line", method=True)
+    u.verify(M, "read_line", "", props=["C16"], fns={"read_line": FnSpec(ret="r", ghost=True, sig="""
     ensures
-        // the value given on the command line, else the (trimmed) content of the named file, else one line of the standard input
-        r matches Ok(s) ==> s@ == acme_value(*cnf, opt@, opt_file@), //@C16.input_value_is_the_option_or_the_file_or_stdin
+        // the trimmed content of the named file, or the next line of the standard input, trimmed - and that line only is taken
+        r matches Ok(s) ==> s@ == (match path { Some(p) => trim_spec(file_text(p@)), None => trim_spec(first_line(old(w).stdin)) }), //@C16.a_value_read_is_the_trimmed_file_or_the_next_line_of_stdin
+        r is Ok ==> final(w).stdin == (match path { Some(p) => old(w).stdin, None => after_first(old(w).stdin) }), //@C16.reading_a_value_takes_one_line_of_stdin_and_no_more
+""")})
+    u.verify(M, "get_acme_value", "", props=["C16"], fns={"get_acme_value": FnSpec(ret="r", ghost=True, sig="""
+    ensures
+        // the value given on the command line, else the (trimmed) content of the named file, else the next line of the standard input
+        r matches Ok(s) ==> s@ == acme_value(*cnf, opt@, opt_file@, old(w).stdin), //@C16.input_value_is_the_option_or_the_file_or_stdin
+        r is Ok ==> final(w).stdin == stdin_after(*cnf, opt@, opt_file@, old(w).stdin), //@C16.reading_a_value_takes_one_line_of_stdin_and_no_more
 """, rewrites=[opt_as_str, get_one])})
-    u.verify(M, "init", "", props=["C16"], fns={"init": FnSpec(ret="r", rewrites=[
+    u.verify(M, "init", "", props=["C16"], fns={"init": FnSpec(ret="r", ghost=True, body_start="let ghost stdin0 = w.stdin;", rewrites=[
         opt_as_str, get_one,
         ("T-ANYHOW", r"anyhow!\((?P<e>\w+)\)", r"crate::anyhow::from_err(\g<e>)", None),
         ("T-PARSE", r"alg\s*\.parse\(\)", "crate::shims::parse_named(alg)", None),
@@ -35,8 +43,8 @@ def build():
     proof {
         // the certificate that is served: for the A-label form of the requested domain, carrying the requested extension text,
         // with the key type and digest asked for (or the defaults), and the key that goes with it
-        assert(crate::shims::acme_common::idna_spec(acme_value(*cnf, "domain"@, "domain-file"@)) == Some(cert.domain@)); //@C16.served_certificate_is_for_the_a_label_form_of_the_requested_domain
-        assert(cert.ext@ == acme_value(*cnf, "acme-ext"@, "acme-ext-file"@)); //@C16.served_certificate_carries_the_requested_extension
+        assert(crate::shims::acme_common::idna_spec(acme_value(*cnf, "domain"@, "domain-file"@, stdin0)) == Some(cert.domain@)); //@C16.served_certificate_is_for_the_a_label_form_of_the_requested_domain
+        assert(cert.ext@ == acme_value(*cnf, "acme-ext"@, "acme-ext-file"@, stdin_after(*cnf, "domain"@, "domain-file"@, stdin0))); //@C16.served_certificate_carries_the_requested_extension
         assert(cert.key@ == pk.id@); //@C16.served_key_is_the_certificate_key
     }""")])})
     return u
@@ -44,16 +52,17 @@ def build():
 
 SPEC = """
 broadcast use {crate::stdax2::axiom_to_string_string, vstd::string::to_string_from_display_ensures_for_str};
-pub open spec fn acme_value(cnf: ArgMatches, opt: Seq<char>, opt_file: Seq<char>) -> Seq<char> {
-    match arg_of(cnf, opt) { Some(v) => v@, None => line_of(arg_of(cnf, opt_file)) }
+// the value of an input: given on the command line, else the trimmed content of the named file, else the next line of stdin, trimmed
+pub open spec fn acme_value(cnf: ArgMatches, opt: Seq<char>, opt_file: Seq<char>, stdin: Seq<Seq<char>>) -> Seq<char> {
+    match arg_of(cnf, opt) { Some(v) => v@, None => match arg_of(cnf, opt_file) { Some(p) => trim_spec(file_text(p@)), None => trim_spec(first_line(stdin)) } }
+}
+// what is left of the standard input afterwards: one line less when (and only when) the value came from there
+pub open spec fn stdin_after(cnf: ArgMatches, opt: Seq<char>, opt_file: Seq<char>, stdin: Seq<Seq<char>>) -> Seq<Seq<char>> {
+    if arg_of(cnf, opt) is None && arg_of(cnf, opt_file) is None { after_first(stdin) } else { stdin }
 }
 """
 
 STUBS = """
-// read_line: the trimmed content of the file, or one trimmed line of the standard input
-#[verifier::external_body]
-fn read_line(path: Option<&String>) -> (r: Result<String>)
-    ensures r matches Ok(s) ==> s@ == line_of(match path { Some(p) => Some(*p), None => None }) { unimplemented!() }
 // openssl_server::start (unit tacd): serves this certificate with this key
 #[verifier::external_body]
 fn server_start(listen_addr: &str, certificate: &X509Certificate, key_pair: &crate::shims::crypto::KeyPair) -> (r: Result<()>) { unimplemented!() }
